@@ -195,6 +195,7 @@ type RespSpec struct {
 	Body               []byte
 	Chunks             []int
 	Trailer            []wire.HF
+	HeadChunked        bool // the response to HEAD names Transfer-Encoding: chunked (in Header)
 	UnannouncedTrailer bool // send the trailer fields without naming them in a Trailer header (a SHOULD, RFC 7230 4.4)
 	Close              bool // send Connection: close and close after the response
 	// HeadCL, for responses to HEAD: advertise this Content-Length without a body.
